@@ -98,7 +98,8 @@ def rewrite_stream(chk, model, bres, tier):
         runs = []
         for i in range(100 if tier == 'quick' else 800):
             spec = filegen.gen_spec(R, n_lf=1, small=True, vrl=R.choice([8192, 128]), with_index=False)
-            spec['write'].update({'data_kind': 'dict', 'input_chunk_size': None, 'output_chunk_size': 2**20})
+            spec['write'].update({'data_kind': 'dict', 'input_chunk_size': None, 'output_chunk_size': 2**20,
+                                  'from_idx': 0, 'to_idx': None})
             r1 = filegen.write(spec, tmp, fname='r1.dlis')
             if r1['status'] != 'ok':
                 continue
